@@ -44,6 +44,10 @@ func runC17(c *Ctx) {
 	if c.headerLayoutOK("C01.anchor") {
 		c01Frames(c)
 	}
+	// what the constructors return is the caller's to mask or fill in place: never the bytes of a
+	// package-level variable (no-global-bytes-returned, decided together with the other rules
+	// about package-level state)
+	c19Globals(c)
 }
 
 func c17UnsafeViews(c *Ctx) {
